@@ -78,7 +78,8 @@ class Reader(Task):
         off = z3.Int("off")
         fab = sym_fab(ctx, F, off, self.nd, canonical=False)
         farg, cnt, sel, _ = self.selector(ctx, fab.nc)
-        return {"args": [(path, off, farg)], "fab": fab, "cnt": cnt, "sel": sel}
+        before = list(farg.items) if isinstance(farg, Vec) else None        # the caller's selection object (shared between reads)
+        return {"args": [(path, off, farg)], "fab": fab, "cnt": cnt, "sel": sel, "farg": farg, "before": before}
 
     def post(self, ex, inp, out):
         ctx = ex.ctx
@@ -95,6 +96,8 @@ class Reader(Task):
             ctx.oblige("post.value", False, "P", note="result is not an array")
             return
         ctx.oblige("post.value", veq(ctx, out.value, exp), "P")
+        if inp.get("before") is not None:
+            ctx.oblige("frame.field-selection-argument-unchanged", veq(ctx, list(inp["farg"].items), inp["before"]), "P")
 
     def replay_params(self, model):
         def g(n, d=None):
@@ -123,7 +126,7 @@ class Reader(Task):
         return {"kind": "single", "ndims": nd, "box": shape, "nf": nc, "fsel": sel, "seed": 1}
 
 
-def tasks(tier):
+def _tasks0(tier):
     out = []
     forms = ["int", "slice:::", "slice:a::", "slice::b:", "slice:a:b:", "slice:a:b:s", "slice:::s"]
     for nd in (2, 3):
@@ -161,9 +164,18 @@ def scenarios(tier, seed):
         out.append({"kind": "sweep", "seed": seed * 1000 + i, "ndims": 3 if i % 3 else 2,
                     "nf": [3, 5, 1, 8][i % 4], "nlevels": 1 + i % 3, "nfiles": 1 + (i % 3),
                     "layout": ["shuffled", "monotone", "roundrobin"][i % 3] if i % 5 else "shuffled"})
+    out.append({"kind": "sweep", "seed": seed * 1000 + 40, "ndims": 3, "nf": 3, "nlevels": 2, "nfiles": 2, "layout": "shuffled",
+                "n0": [9, 8, 8]})        # one-cell-thick boxes
     return out
 
 
 def run_scenario(p, wd):
     from harness.rt_reader import run_reader_scenario
     return run_reader_scenario(p, wd)
+
+
+
+def tasks(tier):
+    # the FAB header parsers / formatter (real bodies on canonical header text): the obligations behind the header contracts
+    from props.parsers import parser_tasks
+    return _tasks0(tier) + parser_tasks("C01", nds=(2, 3))
